@@ -355,26 +355,20 @@ class Node:
             if value_node.tag == 'tag:yaml.org,2002:null':
                 return default is None
 
-            if value_node.tag == 'tag:yaml.org,2002:int':
-                return int(value_node.value) == int(default)
-
-            if value_node.tag == 'tag:yaml.org,2002:float':
-                return float(value_node.value) == float(default)
-
-            if value_node.tag == 'tag:yaml.org,2002:bool':
-                if default is False:
-                    return (
-                            str(value_node.value).lower() == 'n' or
-                            str(value_node.value).lower() == 'no' or
-                            str(value_node.value).lower() == 'false' or
-                            str(value_node.value).lower() == 'off')
-                elif default is True:
-                    return (
-                            str(value_node.value).lower() == 'y' or
-                            str(value_node.value).lower() == 'yes' or
-                            str(value_node.value).lower() == 'true' or
-                            str(value_node.value).lower() == 'on')
-                return False
+            if value_node.tag in (
+                    'tag:yaml.org,2002:int', 'tag:yaml.org,2002:float',
+                    'tag:yaml.org,2002:bool'):
+                # compare what would be loaded with the default, if
+                # the default is of a comparable type
+                try:
+                    value = Node(value_node).get_value()
+                except Exception:
+                    return False
+                if isinstance(value, bool) != isinstance(default, bool):
+                    return False
+                if not isinstance(default, (bool, int, float)):
+                    return False
+                return bool(value == default)
 
             return bool(value_node.value == default)
 
